@@ -177,7 +177,14 @@ def check_abort_no_retry(
 
     Returns True if should abort (and records cancel with breaker).
     """
-    if abort_if is not None and abort_if():
+    if abort_if is None:
+        return False
+    try:
+        aborted = abort_if()
+    except BaseException:
+        record_cancel(ctx)
+        raise
+    if aborted:
         record_cancel(ctx)
         return True
     return False
